@@ -1746,7 +1746,7 @@ def k_find_deprecation(R, ndir, nargs):
 
 # ---------------------------------------------------------------- C06: validation kernels
 
-def abstract_schema(B, st, prefix, members=None, obj_names=('O0', 'O1')):
+def abstract_schema(B, st, prefix, members=None, obj_names=('O0', 'O1'), self_union=False):
     """2 objects, 1 interface, 1 union; `implements` and union membership are symbolic bits
     (with `members` = concrete list of bools the union's variant list is built exactly)"""
     impl = [z3.Bool(f'{prefix}impl{o}') for o in range(2)]
@@ -1762,6 +1762,9 @@ def abstract_schema(B, st, prefix, members=None, obj_names=('O0', 'O1')):
         variants = VecV([B.variant('TypeId', 'Object', B.newtype('ObjectId', z3.If(memb[o], bv(o, 32), bv(7 + o, 32)))) for o in range(2)])
     else:
         variants = VecV([B.variant('TypeId', 'Object', B.newtype('ObjectId', bv(o, 32))) for o in range(2) if members[o]])
+    if self_union:
+        # a union that lists itself among its members (accepted by the SDL front end)
+        variants = VecV(tuple(variants.items) + (B.variant('TypeId', 'Union', B.newtype('UnionId', bv(0, 64))),))
     union = B.struct('StoredUnion', name=StrV('U0'), variants=variants)
     schema = B.struct('Schema', stored_objects=VecV(objs), stored_fields=VecV(()), stored_interfaces=VecV([iface]), stored_unions=VecV([union]),
                       stored_scalars=VecV([B.struct('StoredScalar', name=StrV('S'))]), stored_enums=VecV(()), stored_inputs=VecV(()), names=B.btreemap([]),
@@ -1785,15 +1788,16 @@ def possible(code, o, sv):
     return z3.If(code == 0, z3.BoolVal(o == 0), z3.If(code == 1, z3.BoolVal(o == 1), z3.If(code == 2, sv['impl'][o], sv['memb'][o])))
 
 
-def k_type_conditions(R):
-    """selection::validate_type_conditions: Ok => the spread can apply (possible types intersect)"""
+def k_type_conditions(R, self_union=False):
+    """selection::validate_type_conditions: Ok => the spread can apply (possible types intersect).
+    With `self_union` the union of the schema lists itself as a member: the check must still terminate (C17)."""
     f = R.fn('validate_type_conditions')
     out = []
     for kind in ('inline', 'spread'):
         holder = {}
 
         def setup(st, B, kind=kind):
-            schema, sv = abstract_schema(B, st, f'tc{kind}_')
+            schema, sv = abstract_schema(B, st, f'tc{kind}{int(self_union)}_', self_union=self_union)
             parent_ty, pcode = sym_composite(B, st, f'tc{kind}_parent')
             sel_ty, scode = sym_composite(B, st, f'tc{kind}_sel')
             holder.update(sv=sv, pcode=pcode, scode=scode)
@@ -1810,8 +1814,21 @@ def k_type_conditions(R):
             R.vm.push_call(st, f, [B.newtype('SelectionId', bv(0, 32)), B.cell(bq)], None, None)
         outs, _ = R.explore(f'validate_type_conditions({kind})', setup)
         sv, pcode, scode = holder.get('sv'), holder.get('pcode'), holder.get('scode')
+        names4 = ['O0', 'O1', 'I0', 'U0']
         for o in outs:
+            if o.kind in ('loop', 'limit'):
+                m = R.vm.model(o.state)
+                if m is not None:
+                    out.append(dict(kernel='type_conditions', prop='C17', what=o.msg, kind=kind, self_union=self_union,
+                                    parent=names4[m.eval(pcode, model_completion=True).as_long()], condition=names4[m.eval(scode, model_completion=True).as_long()],
+                                    implements=[z3.is_true(m.eval(x, model_completion=True)) for x in sv['impl']],
+                                    members=[z3.is_true(m.eval(x, model_completion=True)) for x in sv['memb']]))
+                continue
             if o.kind != 'return':
+                continue
+            if self_union:
+                R.obligations += 1
+                R.discharged += 1
                 continue
             v = o.value
             if isinstance(v, SymEnum):
